@@ -50,6 +50,8 @@ def _c12():
         add("c12_ldl4_p%d" % k, tier="thorough", unit="qdldl::_etree + _factor_inner", inst="GF(13)", bounds="n=4, off-diagonal mask %d, full diagonal" % k, oracle=ldl_or, timeout=3600, mem_gb=24)
     add("c12_refactor3_dense", unit="qdldl::_factor_inner twice on one workspace (what QDLDLFactorisation::refactor does)", inst="GF(13)", bounds="n=3 dense; first values arbitrary (may stop at a zero pivot)",
         oracle="L, D, Dinv, verdict of the refactorisation == those of a fresh factorisation of the new values")
+    add("c12_refactor3_nodiag1", unit="qdldl::_factor_inner twice on one workspace", inst="GF(13)", bounds="n=3 dense off-diagonals, stored diagonal entry (1,1) missing", oracle="same (the pivot accumulator D is re-initialised)")
+    add("c12_refactor3_nodiag2", tier="thorough", unit="qdldl::_factor_inner twice", inst="GF(13)", bounds="n=3 mask 5, diagonal entry (2,2) missing", oracle="same")
     add("c12_refactor3_arrow", tier="thorough", unit="qdldl::_factor_inner twice", inst="GF(13)", bounds="n=3 arrow pattern", oracle="same")
     sol_or = "(L+I) D (L+I)' x == b for all L values, nonzero D, b; safe and unchecked substitutions agree"
     add("c12_solve3_dense", unit="qdldl::_solve (_lsolve_unsafe, _dltsolve_unsafe), _lsolve_safe, _ltsolve_safe, _ltsolve_unsafe", inst="GF(13)", bounds="n=3 dense L", oracle=sol_or)
@@ -138,6 +140,9 @@ _H_VERDICT = {
         bounds="n=m=2", oracle="six info fields and x,s,z,tau,kappa restored bit-for-bit"),
     "c01_unscale": dict(timeout=900, unit="DefaultVariables::unscale (+ DefaultProblemData::new to build the data object)", inst="GF(13) (exact field; all values)",
         bounds="n=m=2, arbitrary d,dinv,e,einv,c,tau,kappa in the field", oracle="x=(x*d)/tau, z=(z*e)/(c tau), s=(s*einv)/tau; kappa instead of tau iff infeasible (cross-multiplied)"),
+    "c01_scale_invariance_m1": dict(nofloat=True, stubs=True, timeout=3000, mem_gb=28, unit="DefaultResiduals::update + DefaultInfo::update (gemv, symv, dot, norm_scaled, get_normq/get_normb)", inst="f64: data/iterate small integers |v|<=3, scalings powers of two (all products exact)",
+        bounds="n=1, m=1; d,e,c in {1/4..4}, tau in {1,2,4}", oracle="every termination quantity (costs, residuals, gaps, ktratio) is bit-identical when computed from the internally scaled presentation and from the user's data with the unscaled iterate; cost formulas q'x+x'Px/2, -b'z-x'Px/2"),
+    "c01_scale_invariance_m2": dict(nofloat=True, stubs=True, tier="thorough", timeout=5400, mem_gb=32, unit="same", inst="same", bounds="n=1, m=2", oracle="same"),
     "c01_post_process_fp": dict(timeout=900, unit="DefaultSolution::post_process -> DefaultVariables::unscale", inst="GF(13)",
         bounds="n=m=2, 7 non-infeasible statuses", oracle="returned x,z,s are the unscaled iterate; objectives copied"),
     "c03_solution_post_process": dict(nofloat=True, timeout=900, unit="DefaultSolution::post_process / finalize, SolverStatus::is_infeasible, DefaultVariables::unscale", inst="f64 all bit patterns",
@@ -152,21 +157,21 @@ PROPS["C01"] = {
     "bounds_note": "verdict logic: every f64 bit pattern of every field and tolerance; unscale/post-process: n=m=2",
     "outside": "that the interior-point iteration reaches an iterate satisfying the test; rounding of residual norms; cone membership of the final iterate (see C07/C15); PSD cones; faer backend",
     "assumptions": ["check_termination is entered with status == Unsolved (loop invariant of Solver::solve, decided by the C04 loop harness)"],
-    "harnesses": _pick(["c01_verdict_solved", "c01_unscale", "c01_post_process_fp", "c03_solution_post_process"]),
+    "harnesses": _pick(["c01_verdict_solved", "c01_unscale", "c01_post_process_fp", "c03_solution_post_process", "c01_scale_invariance_m1", "c01_scale_invariance_m2"]),
 }
 PROPS["C02"] = {
     "feature": "c02",
     "bounds_note": "every f64 bit pattern; n=m=2 for the vectors",
     "outside": "that a certificate is found; numerical size of A'z; membership of z in K*",
     "assumptions": PROPS["C01"]["assumptions"],
-    "harnesses": _pick(["c02_verdict_infeasible", "c03_solution_post_process", "c01_unscale"]),
+    "harnesses": _pick(["c02_verdict_infeasible", "c03_solution_post_process", "c01_unscale", "c01_scale_invariance_m1"]),
 }
 PROPS["C03"] = {
     "feature": "c03",
     "bounds_note": "every f64 bit pattern; n=m=2 for the vectors",
     "outside": "agreement of the reported residual figures with an independent recomputation from the returned point (floating-point norms); chordal decomposition",
     "assumptions": [],
-    "harnesses": _pick(["c03_almost", "c03_rollback", "c03_solution_post_process"]),
+    "harnesses": _pick(["c03_almost", "c03_rollback", "c03_solution_post_process", "c01_scale_invariance_m1"]),
 }
 
 
@@ -207,6 +212,7 @@ def _c16():
     add("c16_set_entry_2x3", unit="CscMatrix::set_entry / get_entry (colptr_to_colcount, colcount_to_colptr)", inst="i32", bounds="2x3 pattern with an empty middle... all 6 coordinates, symbolic nonzero value and zero", oracle="canonical kept; only that coordinate changes; zero never allocates", timeout=1500)
     add("c16_set_entry_3x2_emptycol", unit="same", inst="i32", bounds="3x2 pattern with empty last column", oracle="same", rot=True, timeout=1500)
     add("c16_concat_2x2", unit="BlockConcatenate::hcat/vcat/blockdiag/hvcat", inst="GF(13)", bounds="two 2x2 blocks, nnz 2 and 3, symbolic patterns", oracle="canonical; dense block layout", timeout=1500)
+    add("c16_concat_nonsquare", unit="BlockConcatenate::blockdiag/vcat (colcount_block, fill_block, backshift_colptrs)", inst="GF(13)", bounds="blocks 3x1, 1x2, 2x1 with symbolic patterns", oracle="each block at its own row AND column offset; canonical", timeout=1800, mem_gb=20)
     add("c16_concat_dim_errors", unit="hvcat_dim_check", inst="GF(13)", bounds="2x2 vs 3x2 vs 2x3", oracle="dimension mismatch <=> Err")
     return H
 
@@ -296,7 +302,7 @@ _MAPS_UNIT = "kkt_assembly::assemble_kkt_matrix (LDLDataMap::new, _kkt_assemble_
 _MAPS_OR = ("K canonical of dimension n+m+p, all entries in the requested triangle; map.P / map.A entries at the recorded (transposed for tril) positions with the user's values; diag_full/diagP point at every diagonal "
             "position (structural zeros where P has none); Hsblocks hit the diagonal (diagonal cones) or the packed triangle in order (dense cones); u,v,D of SOC expansions hit the extra columns/rows; all index sets disjoint and covering K")
 PROPS["C11"] = {
-    "native_tests": ["tv_composite"],
+    "native_tests": ["tv_composite", "tv_kkt"],
     "feature": "c11",
     "bounds_note": "n=2; P patterns enumerated (empty, diagonal, missing diagonals, full); cone layouts enumerated ([Zero1,NN2], [NN1,SOC3], [SOC5] sparse, [Exp], [NN1,SOC5,Zero1]); A symbolic canonical pattern with 2-3 entries; symbolic values; both triangles",
     "outside": "exp/pow Hs numerics; GenPow sparse expansion positions; the regularise/refactor/restore cycle of DirectLDLKKTSolver::update (needs a live LDL engine: AMD) ; sign vector",
@@ -310,8 +316,14 @@ PROPS["C11"] = {
         ("c11_maps_nnsoc3_p5_tril", dict(stubs=True, rot=True, unit=_MAPS_UNIT, inst="f64", bounds="cones [NN1,SOC3], P only (1,1), tril", oracle=_MAPS_OR, timeout=1800, mem_gb=20)),
         ("c11_maps_soc5_p3_triu", dict(stubs=True, unit=_MAPS_UNIT, inst="f64", bounds="cones [SOC5] (sparse expansion), full P, triu", oracle=_MAPS_OR, timeout=2400, mem_gb=24)),
         ("c11_maps_soc5_p2_tril", dict(stubs=True, tier="thorough", unit=_MAPS_UNIT, inst="f64", bounds="cones [SOC5], P missing diag, tril", oracle=_MAPS_OR, timeout=2400, mem_gb=24)),
+        ("c11_maps_soc3soc5_p1_triu", dict(stubs=True, unit=_MAPS_UNIT, inst="f64", bounds="cones [SOC3,SOC5]: sparse expansion after a dense block, diagonal P, triu", oracle=_MAPS_OR, timeout=3000, mem_gb=28)),
+        ("c11_maps_expsoc5_p0_tril", dict(stubs=True, tier="thorough", unit=_MAPS_UNIT, inst="f64", bounds="cones [Exp,SOC5], empty P, tril", oracle=_MAPS_OR, timeout=3000, mem_gb=28)),
         ("c11_maps_exp_p4_triu", dict(stubs=True, rot=True, unit=_MAPS_UNIT, inst="f64", bounds="cones [Exp] dense block, P only (0,1), triu", oracle=_MAPS_OR, timeout=1800, mem_gb=20)),
         ("c11_maps_nnsoc5z_p1_tril", dict(stubs=True, tier="thorough", unit=_MAPS_UNIT, inst="f64", bounds="cones [NN1,SOC5,Zero1], diagonal P, tril", oracle=_MAPS_OR, timeout=3000, mem_gb=28)),
+        ("c11_kkt_sync_nn2_reg", dict(stubs=True, nofloat=True, unit="DirectLDLKKTSolver::{update_P, update_A, update -> regularize_and_refactor, _update_values, _fill_signs} against a mirror LDL engine", inst="f64 small ints", bounds="n=2, cones [NN2], static regularisation on", timeout=2400, mem_gb=24,
+            oracle="at refactor the engine's copy == the KKT matrix (every P/A/Hs/diagonal write reached it); afterwards KKT holds the new P,A and an UNregularised diagonal; engine got +eps/-eps by sign; sign vector")),
+        ("c11_kkt_sync_zero1_nn1_noreg", dict(stubs=True, nofloat=True, rot=True, unit="same", inst="f64", bounds="cones [Zero1,NN1], regularisation off", timeout=2400, mem_gb=24, oracle="same, no shift")),
+        ("c11_kkt_sync_soc5_reg", dict(stubs=True, nofloat=True, tier="thorough", unit="same + SOC csc_update_sparsecone (_scale_values)", inst="f64", bounds="cones [SOC5] sparse expansion", timeout=3600, mem_gb=28, oracle="same")),
     ]) + [dict(name="c13::c13_soc3_hs_block", unit="SecondOrderCone::get_Hs vs mul_Hs", inst="GF(17)", bounds="dim 3, all normalised w, eta, x", oracle="unpacked KKT block == operator applied when recovering the slack step", timeout=1200),
           dict(name="c13::c13_soc5_update_scaling_sparse", unit="SecondOrderCone::update_scaling / sparse_data / get_Hs / mul_Hs", inst="GF(13)", bounds="dim 5", oracle="eta^2 (D + uu' - vv') == mul_Hs", timeout=2400, mem_gb=20)],
 }
@@ -365,6 +377,7 @@ PROPS["C07"] = {
 }
 
 PROPS["C08"] = {
+    "native_tests": ["tv_composite", "tv_kkt"],
     "feature": "c08",
     "bounds_note": "vectors of length 3, matrices 3x2 / 2x3 with 3 stored entries (symbolic canonical pattern), index lists of length 2 with arbitrary usize indices; GF(13) values",
     "outside": "check_data_update_allowed on a live DefaultSolver and the synchronisation of the KKT copy (constructing a solver needs AMD); end-to-end agreement of the following solve. KKT value maps: see C11; QDLDL's AtoPAPt map: see C12",
@@ -375,7 +388,8 @@ PROPS["C08"] = {
         ("c08_matrix_full", dict(unit="MatrixProblemDataUpdate for [T], Vec<T>, [T;0], CscMatrix<T> (check_equal_sparsity, lrscale, scale)", inst="GF(13)", bounds="3x2 nnz=3 symbolic pattern", oracle="entry k = l[row k] r[col k] c value_k; wrong length / pattern mismatch: Err and untouched; empty: no-op", timeout=1800, mem_gb=20)),
         ("c08_matrix_partial", dict(unit="MatrixProblemDataUpdate for Zip<..>/(Vec,Vec) -> CscMatrix::index_to_coord", inst="GF(13)", bounds="2x3 nnz=3 symbolic pattern (empty columns allowed), 2 arbitrary indices", oracle="Err <=> index >= nnz; else entry scaled by its true row/column", timeout=1800, mem_gb=20)),
         ("c08_norm_cache", dict(unit="DefaultProblemData::{new,get_normq,get_normb,clear_normq,clear_normb}", inst="f64 small ints, power-of-two scalings", bounds="n=m=2", oracle="after clear: norm of the new data in the user's scaling; before: cached", timeout=1200)),
-    ]),
+    ]) + [dict(name="c11::c11_kkt_sync_nn2_reg", stubs=True, nofloat=True, unit="DirectLDLKKTSolver::{update_P, update_A, update} against a mirror LDL engine", inst="f64 small ints", bounds="n=2, cones [NN2]", timeout=2400, mem_gb=24,
+                 oracle="new P and A values reach the LDL engine's own copy (engine copy == KKT at refactor) and the solver's KKT copy")],
 }
 
 _EQ_UNIT = "DefaultProblemData::equilibrate (kkt_col_norms, scale_data, lrscale/lscale/hadamard, clip, CompositeCone::rectify_equilibration) + DefaultProblemData::new"
@@ -404,8 +418,8 @@ PROPS["C20"] = {
     "outside": "everything that formats numbers (iteration column, footer agreement, header dimensions and settings), file and stdout targets (FFI): string formatting is not executable by the model checker at a useful bound",
     "assumptions": ["CompositeCone hook constructor; RandomState stub"],
     "harnesses": _mk("c20", [
-        ("c20_silent", dict(stubs=True, nofloat=True, unit="DefaultInfo::{print_configuration,print_status_header,print_status,print_footer}", inst="f64 all values", bounds="any info state / status / settings, verbose=false, buffer target", oracle="Ok and zero bytes written", timeout=1500)),
-        ("c20_route", dict(unit="impl Write for PrintTarget; ConfigurablePrintTarget::{print_to_buffer,print_to_stream,print_to_sink,get_print_buffer}; Clone", inst="u8", bounds="3 writes (3,0,2 bytes), arbitrary ASCII", oracle="buffer / stream receive exactly the concatenation; sink accepts; get_print_buffer errs unless buffer; switching replaces the target", timeout=1500)),
+        ("c20_silent", dict(stubs=True, nofloat=True, unit="DefaultInfo::{print_configuration,print_status_header,print_status,print_footer}", inst="f64 all values", bounds="any info state / status / settings, verbose=false, buffer target", oracle="Ok, zero bytes written, nothing even formatted", timeout=1500, mem_gb=32)),
+        ("c20_route", dict(unit="impl Write for PrintTarget; ConfigurablePrintTarget::{print_to_buffer,print_to_stream,print_to_sink,get_print_buffer}; Clone", inst="u8", bounds="3 writes (3,0,2 bytes), arbitrary ASCII", oracle="buffer / stream receive exactly the concatenation; sink accepts; get_print_buffer errs unless buffer; switching replaces the target", timeout=1500, mem_gb=32)),
     ]),
 }
 
